@@ -9,6 +9,7 @@ import (
 	"fmt"
 	"io/ioutil"
 	"math/rand"
+	"net/http"
 	"strings"
 	"sync"
 	"time"
@@ -71,10 +72,16 @@ type ShardSpec struct {
 	Runtime2OK bool   `json:"runtime2OK"`
 	// Status2Fail: a second (or later) status request in the same cycle fails
 	// (the unchanged coordinator asks once; a report once given stays the shard's report)
-	Status2Fail bool   `json:"status2Fail,omitempty"`
-	Held        []Held `json:"held"`
-	HeadExtra   int64  `json:"headExtra"`
-	Idle        string `json:"idle"` // expired | fresh  (meaningful when Held is empty)
+	Status2Fail bool `json:"status2Fail,omitempty"`
+	// FailShape: how a scripted failure looks on the wire when the scenario runs through the real pkg/api
+	// client (Scenario.Wire): conn | 503-error | 500-success | 200-error | 200-garbage | 404-empty
+	FailShape string `json:"failShape,omitempty"`
+	Held      []Held `json:"held"`
+	HeadExtra int64  `json:"headExtra"`
+	// Head2: additional head series in the second runtimeinfo answer of a cycle (the answer after a
+	// configuration push): a restarted shard whose head is refilling reports more the second time
+	Head2 int64  `json:"head2,omitempty"`
+	Idle  string `json:"idle"` // expired | fresh  (meaningful when Held is empty)
 }
 
 // ReplicaSpec is one StatefulSet.
@@ -90,7 +97,10 @@ type Scenario struct {
 	Targets  []TargetSpec  `json:"targets"`
 	Replicas []ReplicaSpec `json:"replicas"`
 	Stop     string        `json:"stop,omitempty"` // ExtraConfig.StopScrapeReason
-	RandSeed int64         `json:"randSeed"`
+	// Wire: shards keep the default api.Get / api.Post client; requests are answered by an in-process
+	// http.RoundTripper, so that pkg/api (status code and envelope handling) is part of what is executed
+	Wire     bool  `json:"wire,omitempty"`
+	RandSeed int64 `json:"randSeed"`
 }
 
 // Req is one request a shard received.
@@ -133,6 +143,7 @@ func (s *ShardSpec) Reachable() bool { return s.Ready && s.StatusOK }
 
 type fakeShard struct {
 	mu      sync.Mutex
+	host    string
 	spec    *ShardSpec
 	log     []Req
 	hash    string
@@ -154,16 +165,28 @@ var farPast = time.Now().Add(-1000 * time.Hour)
 var farFuture = time.Now().Add(1000 * time.Hour)
 
 func (f *fakeShard) get(url string, ret interface{}) error {
+	data, err := f.getCore(url[strings.Index(url, "/api/"):])
+	if err != nil {
+		return err
+	}
+	// same plumbing as api.Get: JSON on the wire
+	b, err := json.Marshal(data)
+	if err != nil {
+		return err
+	}
+	return json.Unmarshal(b, ret)
+}
+
+// getCore records the request and returns what a healthy answer would carry plus the scripted failure, if any.
+func (f *fakeShard) getCore(path string) (data interface{}, fail error) {
 	f.mu.Lock()
 	defer f.mu.Unlock()
-	path := url[strings.Index(url, "/api/"):]
 	f.log = append(f.log, Req{Method: "GET", Path: path})
-	var data interface{}
 	switch {
 	case strings.HasPrefix(path, "/api/v1/shard/targets/status/"):
 		f.stCalls++
 		if !f.spec.StatusOK || (f.stCalls >= 2 && f.spec.Status2Fail) {
-			return fmt.Errorf("status get failed (scripted)")
+			fail = fmt.Errorf("status get failed (scripted)")
 		}
 		m := map[uint64]*target.ScrapeStatus{}
 		for _, h := range f.spec.Held {
@@ -179,17 +202,24 @@ func (f *fakeShard) get(url string, ret interface{}) error {
 	case strings.HasPrefix(path, "/api/v1/shard/runtimeinfo/"):
 		f.rtCalls++
 		if f.rtCalls == 1 && !f.spec.Runtime1OK {
-			return fmt.Errorf("runtimeinfo get failed (scripted)")
+			fail = fmt.Errorf("runtimeinfo get failed (scripted)")
 		}
 		if f.rtCalls >= 2 && !f.spec.Runtime2OK {
-			return fmt.Errorf("second runtimeinfo get failed (scripted)")
+			fail = fmt.Errorf("second runtimeinfo get failed (scripted)")
 		}
 		ri := &shard.RuntimeInfo{ConfigHash: f.hash}
+		if fail != nil && f.spec.FailShape == "500-success" {
+			// the most tempting wrong answer: a failed request whose body looks perfectly healthy
+			ri.ConfigHash = CoordHash
+		}
 		for _, h := range f.spec.Held {
 			ri.HeadSeries += h.Series
 			ri.ProcessSeries += h.Total
 		}
 		ri.HeadSeries += f.spec.HeadExtra
+		if f.rtCalls >= 2 {
+			ri.HeadSeries += f.spec.Head2
+		}
 		if len(f.spec.Held) == 0 {
 			t := farFuture
 			if f.spec.Idle == "expired" {
@@ -199,25 +229,23 @@ func (f *fakeShard) get(url string, ret interface{}) error {
 		}
 		data = ri
 	default:
-		return fmt.Errorf("unexpected GET %s", path)
+		fail = fmt.Errorf("unexpected GET %s", path)
 	}
-	// same plumbing as api.Get: JSON on the wire
-	b, err := json.Marshal(data)
-	if err != nil {
-		return err
-	}
-	return json.Unmarshal(b, ret)
+	return data, fail
 }
 
 func (f *fakeShard) post(url string, req interface{}, ret interface{}) error {
-	f.mu.Lock()
-	defer f.mu.Unlock()
-	path := url[strings.Index(url, "/api/"):]
 	b, err := json.Marshal(req)
 	if err != nil {
 		return err
 	}
-	f.log = append(f.log, Req{Method: "POST", Path: path, Body: b})
+	return f.postCore(url[strings.Index(url, "/api/"):], b)
+}
+
+func (f *fakeShard) postCore(path string, b []byte) error {
+	f.mu.Lock()
+	defer f.mu.Unlock()
+	f.log = append(f.log, Req{Method: "POST", Path: path, Body: append([]byte(nil), b...)})
 	switch {
 	case strings.HasPrefix(path, "/api/v1/status/config"):
 		if f.spec.Push == "fail" {
@@ -230,6 +258,73 @@ func (f *fakeShard) post(url string, req interface{}, ret interface{}) error {
 		}
 	}
 	return nil
+}
+
+// ---- wire mode: the real pkg/api client talks to the scripted shards through http.DefaultTransport
+
+var (
+	wireExec  sync.Mutex // one wire execution at a time (http.DefaultTransport is process-wide)
+	wireMu    sync.Mutex
+	wireHosts = map[string]*fakeShard{}
+)
+
+type wireRT struct{}
+
+func wireResp(req *http.Request, code int, body string) *http.Response {
+	return &http.Response{
+		StatusCode: code, Status: fmt.Sprintf("%d %s", code, http.StatusText(code)),
+		Proto: "HTTP/1.1", ProtoMajor: 1, ProtoMinor: 1,
+		Header:        http.Header{"Content-Type": []string{"application/json; charset=utf-8"}},
+		Body:          ioutil.NopCloser(strings.NewReader(body)),
+		ContentLength: int64(len(body)), Request: req,
+	}
+}
+
+func (wireRT) RoundTrip(req *http.Request) (*http.Response, error) {
+	wireMu.Lock()
+	f := wireHosts[req.URL.Host]
+	wireMu.Unlock()
+	if f == nil {
+		return nil, fmt.Errorf("dial tcp: lookup %s: no such host", req.URL.Host)
+	}
+	var body []byte
+	if req.Body != nil {
+		body, _ = ioutil.ReadAll(req.Body)
+		_ = req.Body.Close()
+	}
+	var data interface{}
+	var fail error
+	if req.Method == "GET" {
+		data, fail = f.getCore(req.URL.Path)
+	} else {
+		fail = f.postCore(req.URL.Path, body)
+	}
+	okBody := func() string {
+		b, _ := json.Marshal(map[string]interface{}{"status": "success", "data": data})
+		return string(b)
+	}
+	if fail == nil {
+		return wireResp(req, 200, okBody()), nil
+	}
+	errBody, _ := json.Marshal(map[string]interface{}{"status": "error", "errorType": "internal", "error": fail.Error()})
+	shape := f.spec.FailShape
+	if req.Method != "GET" && strings.HasPrefix(shape, "200-") {
+		// a POST without result type is judged by its status code alone: a 200 IS an accepted request
+		shape = "503-error"
+	}
+	switch shape {
+	case "503-error":
+		return wireResp(req, 503, string(errBody)), nil
+	case "500-success":
+		return wireResp(req, 500, okBody()), nil
+	case "200-error":
+		return wireResp(req, 200, string(errBody)), nil
+	case "200-garbage":
+		return wireResp(req, 200, "<html><body>502 Bad Gateway</body></html>"), nil
+	case "404-empty":
+		return wireResp(req, 404, ""), nil
+	}
+	return nil, fmt.Errorf("dial tcp %s: connect: connection refused", req.URL.Host)
 }
 
 type fakeManager struct {
@@ -249,8 +344,13 @@ func (m *fakeManager) Shards() ([]*shard.Shard, error) {
 	ret := make([]*shard.Shard, 0, len(m.shards))
 	for i, f := range m.shards {
 		s := shard.NewShard(fmt.Sprintf("shard-%d", i), fmt.Sprintf("http://shard-%d", i), f.spec.Ready, quietLog)
-		s.APIGet = f.get
-		s.APIPost = f.post
+		if f.host != "" {
+			// wire mode: default client (api.Get / api.Post), answered by wireRT
+			s = shard.NewShard(fmt.Sprintf("shard-%d", i), "http://"+f.host, f.spec.Ready, quietLog)
+		} else {
+			s.APIGet = f.get
+			s.APIPost = f.post
+		}
 		ret = append(ret, s)
 	}
 	return ret, nil
@@ -377,6 +477,22 @@ func Exec(sc *Scenario) *Transcript { return ExecSeq([]*Scenario{sc})[0] }
 // judged on its own inputs; state that leaks from one cycle into the next becomes visible.
 func ExecSeq(scs []*Scenario) []*Transcript {
 	trs := make([]*Transcript, len(scs))
+	wire := false
+	for _, sc := range scs {
+		wire = wire || sc.Wire
+	}
+	if wire {
+		wireExec.Lock()
+		old := http.DefaultTransport
+		http.DefaultTransport = wireRT{}
+		defer func() {
+			http.DefaultTransport = old
+			wireMu.Lock()
+			wireHosts = map[string]*fakeShard{}
+			wireMu.Unlock()
+			wireExec.Unlock()
+		}()
+	}
 	st := &stepper{calls: make(chan int, 8), release: make(chan struct{})}
 	allMans := make([][]*fakeManager, len(scs))
 	for k, sc := range scs {
@@ -392,7 +508,14 @@ func ExecSeq(scs []*Scenario) []*Transcript {
 				if !sp.HashEqual {
 					h = OldHash
 				}
-				fm.shards = append(fm.shards, &fakeShard{spec: sp, hash: h})
+				fs := &fakeShard{spec: sp, hash: h}
+				if wire {
+					fs.host = fmt.Sprintf("c%d-r%d-s%d.wire", k, ri, si)
+					wireMu.Lock()
+					wireHosts[fs.host] = fs
+					wireMu.Unlock()
+				}
+				fm.shards = append(fm.shards, fs)
 			}
 			allMans[k] = append(allMans[k], fm)
 			ms = append(ms, fm)
